@@ -13,11 +13,19 @@ MODULE = "MysticVerif.Props.C16"
 
 
 def _listed_theorems():
-    """every public theorem of Props/C16.lean is a property theorem (helper lemmas live in Proofs/Transforms.lean)"""
-    import os, re
-    src = open(os.path.join(common.LEAN, "MysticVerif", "Props", "C16.lean")).read()
-    src = framework.strip_comments(src)
-    return ["MysticVerif.C16." + m for m in re.findall(r"^theorem\s+([A-Za-z0-9_'.]+)", src, re.M)]
+    """every public theorem of Props/C16.lean and of the part files Props/C16/*.lean (all imported by Props/C16.lean, all
+    in namespace MysticVerif.C16) is a property theorem (helper lemmas live in Proofs/Transforms.lean, Proofs/TransformsExt.lean)"""
+    import os, re, glob
+    base = os.path.join(common.LEAN, "MysticVerif", "Props")
+    top = open(os.path.join(base, "C16.lean")).read()
+    imported = set(re.findall(r"^import\s+MysticVerif\.Props\.C16\.([A-Za-z0-9_]+)", framework.strip_comments(top), re.M))
+    out = []
+    for path in [os.path.join(base, "C16.lean")] + sorted(glob.glob(os.path.join(base, "C16", "*.lean"))):
+        if os.path.dirname(path) != base and os.path.basename(path)[:-5] not in imported:
+            continue                                         # a part file that is not (yet) imported is not built: not listed
+        src = framework.strip_comments(open(path).read())
+        out += ["MysticVerif.C16." + m for m in re.findall(r"^theorem\s+([A-Za-z0-9_'.]+)", src, re.M)]
+    return out
 
 
 THEOREMS = _listed_theorems()
